@@ -49,6 +49,10 @@ class CompFail(Exception):
     pass
 
 
+class FlakyError(Exception):
+    pass
+
+
 class CompFail2(ValueError):
     pass
 
@@ -165,7 +169,15 @@ class Tree:
                     kw = {}
                     if len(st) > 4 and st[4]:
                         kw["teardown_callback"] = lambda l=label: env.log("td", "res:" + l)
+                    if len(st) > 5 and st[5] == "private":
+                        # published in a private sub-context of the component: nobody else may notice
+                        async with ac.Context():
+                            ac.add_resource(v, name, types, **kw)
+                            env.log("added-private", path, phase, tname, name, label)
+                        continue
                     ac.add_resource(v, name, types, **kw)
+                    if kw:
+                        env.log("td-reg", "res:" + label)
                     env.log("added", path, phase, tname, name, label)
                 elif k == "addf":
                     _, tname, name, label, fkind = st
@@ -180,6 +192,26 @@ class Tree:
                     if fkind == "async":
                         async def fcb(make=make) -> Any:
                             return make()
+                    elif fkind == "aflaky":
+                        async def fcb(make=make, label=label) -> Any:
+                            n = self.fac_calls.get(label, 0) + 1
+                            if n == 1:
+                                self.fac_calls[label] = n
+                                env.log("factory+", label, n)
+                                await env.gate(f"fac:{label}")
+                                env.log("factory!", label, n)
+                                raise FlakyError(label)
+                            return make()
+                    elif fkind == "union":
+                        from typing import Union
+
+                        def fcb(make=make) -> Any:  # type: ignore[misc]
+                            return make()
+
+                        fcb.__annotations__["return"] = Union[RA, RB]
+                        ac.add_resource_factory(fcb, name)  # types taken from the return annotation
+                        env.log("addedf", path, phase, "RAB", name, label)
+                        continue
                     else:
                         def fcb(make=make) -> Any:  # type: ignore[misc]
                             return make()
@@ -204,6 +236,11 @@ class Tree:
                             r = await self._inject(tname, name, optional)()
                     except ac.ResourceNotFound:
                         env.log("get!", tag, "ResourceNotFound", env.env_events - ev0)
+                        if len(st) > 6 and st[6] == "tolerate":
+                            continue
+                        raise
+                    except FlakyError:
+                        env.log("get!", tag, "FlakyError", env.env_events - ev0)
                         if len(st) > 6 and st[6] == "tolerate":
                             continue
                         raise
